@@ -239,11 +239,11 @@ def join_case(rng):
     the same molecule (label-number offset as getUnalignedFragments gives it) seeded at a shifted locus."""
     c = gen.direct_align_case(rng)
     n = len(c['query'])
-    k = rng.randint(2, max(2, n - 4))
+    k = rng.randint(min(2, n - 1), max(2, n - 4))
     c['kind'] = 'join'
     c['shift'] = 0
     c['frag_from'] = k if rng.random() < 0.7 else 0
-    c['frag_to'] = n if c['frag_from'] else rng.randint(4, n)
+    c['frag_to'] = n if c['frag_from'] else rng.randint(min(4, n), n)
     base = c['peaks'][0][0]
     spac = [b - a for a, b in zip(c['ref'], c['ref'][1:])]
     deltas = [0, rng.choice(spac), -rng.choice(spac), rng.choice(spac) + rng.choice(spac), rng.randint(-60000, 60000), rng.randint(-3000, 3000)]
